@@ -65,7 +65,7 @@ func JSONWriteNaturalLanguageProp(b *[]byte, n string, nl NaturalLanguageValues)
 }
 
 func JSONWriteStringProp(b *[]byte, n string, s string) (notEmpty bool) {
-	return JSONWriteProp(b, n, []byte(fmt.Sprintf(`"%s"`, s)))
+	return JSONWriteProp(b, n, []byte(fmt.Sprintf(`"%s"`, escapeQuote(s))))
 }
 
 func JSONWriteBoolProp(b *[]byte, n string, t bool) (notEmpty bool) {
